@@ -51,7 +51,7 @@ fn run_job(run: &mut Run, job: &Job, budget_s: f64) -> ExploreOut {
         mode: mode(),
         deep_depth: 0,
     };
-    engine::explore(run, "crash", &x, budget_s, 0.0)
+    engine::explore(run, "crash", &x, budget_s, budget_s)
 }
 
 fn main() {
@@ -83,7 +83,8 @@ fn main() {
     let mut outs = Vec::new();
     let mut carry = 0.0;
     for job in &jobs {
-        let budget = total * job.share + carry;
+        // quick: fixed bounds, the budget is only a cap
+        let budget = if run.tier == Tier::Quick { run.remaining_s() * 0.95 } else { total * job.share + carry };
         let t = run.elapsed();
         let out = run_job(&mut run, job, budget);
         let used = run.elapsed() - t;
